@@ -196,20 +196,36 @@ def coreSkip (b : Bus) (maximum : Nat) : R (Nat × Bus × List PEvent) :=
 
 /-! ## `Teakra::Impl::Reset` (without `processor.Reset()`) -/
 
-/-- `memset(raw, 0, 0x80000)`, then `Reset()` of miu, apbp_from_cpu, apbp_from_dsp, timer[0..1],
-ahbm, dma, btdmp[0..1].  Not touched: the ICU, the MMIO storage words, `disable_interrupt` of
-the APBP channels (`DataChannel::Reset`), the external memory. -/
+/-- `memset(raw, 0, 0x80000)`, then `Reset()` of miu, icu, mmio (the storage words), apbp_from_cpu,
+apbp_from_dsp, timer[0..1], ahbm, dma, btdmp[0..1].  Not touched: what belongs to the host (the
+external memory behind the AHBM callbacks, the callbacks). -/
 def reset (b : Bus) : Bus :=
   { b with
     mem := {}
     miu := {}
     per := { b.per with
+      icu := {}
+      store := Vector.replicate mmioSize 0
       apbpFromCpu := b.per.apbpFromCpu.reset
       apbpFromDsp := b.per.apbpFromDsp.reset
       timer := Vector.replicate 2 (Timer.reset {})
       ahbm := b.per.ahbm.reset
       dma := b.per.dma.reset
       btdmp := Vector.replicate 2 (Btdmp.reset {}) } }
+
+/-- The pinned upstream `Reset`: the ICU, the MMIO storage words and the mailbox
+interrupt-disable flags survived it (kept as the witness of the defect repaired in /repo). -/
+def resetUpstream (b : Bus) : Bus :=
+  { b.reset with
+    per := { b.reset.per with
+      icu := b.per.icu
+      store := b.per.store
+      apbpFromCpu := { b.reset.per.apbpFromCpu with
+        dataChannels := Vector.ofFn fun i =>
+          { (b.reset.per.apbpFromCpu.dataChannels[i]) with disableInterrupt := (b.per.apbpFromCpu.dataChannels[i]).disableInterrupt } }
+      apbpFromDsp := { b.reset.per.apbpFromDsp with
+        dataChannels := Vector.ofFn fun i =>
+          { (b.reset.per.apbpFromDsp.dataChannels[i]) with disableInterrupt := (b.per.apbpFromDsp.dataChannels[i]).disableInterrupt } } } }
 
 /-! ## host API (src/teakra.cpp); the `std::uint8_t index` is unchecked in the C++ -/
 
